@@ -4,6 +4,7 @@ import (
 	"bytes"
 	"context"
 	"encoding/json"
+	"io"
 
 	"github.com/goccy/go-json/internal/encoder"
 )
@@ -357,10 +358,9 @@ func Valid(data []byte) bool {
 	if err != nil {
 		return false
 	}
-	if !decoder.More() {
-		return true
-	}
-	return decoder.InputOffset() >= int64(len(data))
+	// nothing but white space may follow the value
+	var rest interface{}
+	return decoder.Decode(&rest) == io.EOF
 }
 
 func init() {
